@@ -171,6 +171,21 @@ CLAIMED["C20"] = dict(
          "clears both on a top-level line. The parse/print round trip for arbitrary trees, printed precision and the HDF5 snapshot path are not decided.",
     note="Trusted: clang, AST export, sympy rationals; literal values are read as written in the source.")
 
+CLAIMED["C06"] = dict(
+    level="other", design="3/C06",
+    technique="static analysis: forward-substitution extraction of the closed-form balance formulas and computer-algebra sign "
+              "certificates (non-negative-coefficient ratios), CAS identities for the hydrogen root and the sibling quadratic arms, "
+              "path-sensitive reaching-definition rule for the temperature cap",
+    text="Decides, for all non-negative inputs in real arithmetic: every metal ionic fraction is a ratio of polynomials with non-negative "
+         "coefficients and the tracked stages of each element sum to at most 1; the hydrogen-only closed form solves the balance equation, "
+         "lies in [floor, 1], decreases with the radiation field and increases with density and recombination rate, and its strong-field arm "
+         "is the leading term of the exact root; expansion arm, exact arm and switch variable of both quadratic solves in the H/He "
+         "iteration describe the same root; literal special-case arms set every tracked ion to values in [0,1] summing to at most 1 per "
+         "element; every temperature written by the thermal balance is a literal <= 30000 or capped by min(30000, .) on every path. "
+         "Convergence and bounds of the H/He fixed point, the temperature iteration (lower bound, finiteness) and absence of the "
+         "`too many iterations` abort are loop properties over runtime values and are not decided.",
+    note="Trusted: clang, AST export, sympy; assumes rates, intensities and densities are non-negative (C18 is not decided).")
+
 NOT_APPLICABLE = {
     "C13": "Equality with the RANLUX sequence, range [0,1) and byte-identical snapshots are facts about computed 48-bit arithmetic and library I/O; no sound static domain or on-disk reference to validate against. Its one structural clause (generator state fully dumped/restored) is decided under C09.",
     "C15": "Validity of a Voronoi tessellation and agreement of two constructions quantify over real generator sets; correctness rests on geometric predicates and flip sequences whose outcomes are runtime values; no clause has its truth in the shape of the code.",
